@@ -374,3 +374,9 @@ mod tcp {
         }
     }
 }
+
+#[cfg(octo_squirrel_verif)]
+pub mod verif {
+    pub use super::tcp::PayloadCodec;
+    pub use super::tcp::ServerContext;
+}
